@@ -9,13 +9,19 @@ CFG = {'lean_modules': ['ObiVerif.Props.C19'],
          'equal to / longer than k and longer than the machine word, with ambiguity codes, u, palindromic at-only sequences; g = MakeDeBruijnGraph(k), k = '
          '2..31 (+ 1 and 32), 1..5 reads derived from a template with substitutions, truncations, reads of exactly k bases, internal repeats (branches, '
          'cycles), 2-3 letter alphabets for dense small graphs, up to three ambiguity codes per read, counts 1..20, a few bytes outside the IUPAC table; the '
-         'first corpus lines pin every defect found on the unchanged code; non-trivial = distinct well-formed case inside the domain of the word type (2k <= '
-         'W)',
+         'first corpus lines pin every defect found on the unchanged code; deepening round 2: reads of exactly k, k+1, k+2 bases with ambiguity codes at the '
+         'edges of the first/last window (k up to 32), bubbles / tips / several sources of equal weight, 20-300 reads per graph, nk at 2k = W, W-2, W-4 on '
+         'the three word types with sequences of k-1, k, k+1 bases; gf = Push + FilterMinWeight(min, incl. negative and 0) + MaxWeight + Len + everything '
+         'g shows on the filtered graph; gc = LongestConsensus(id, min_cov > 0) for 21 fixed values (dyadic, 0.1, 1/3, next-after 0.5, 1e-300, smallest '
+         'subnormal, > 1) and random ones; km = NewKmerMap(refs, k, sparse, maxocc in -1..4) + Len + Query + FilterMinCount on 64/128/256-bit words, query '
+         'fresh or itself a reference; non-trivial = distinct well-formed case inside the domain of the word type (2k <= W)',
  'technique': 'Lean 4 theorems on executable models of the k-mer code (table facts decided over the tables regenerated from the source; word arithmetic, '
               'sliding-window and strand-symmetry laws by induction) + differential correspondence of the models with the real pkg/obikmer functions on the '
               'three obifp word types + independent oracles on the real code (naive 4-mer and canonical k-mer enumeration on strings and big integers, strand '
               'invariance by actually reverse-complementing, per-window IUPAC expansion for the weights, Kahn elimination for cycles, brute force over all '
-              'walks and dynamic programming for the heaviest walk)',
+              'walks and dynamic programming for the heaviest walk; for min_cov: 53-bit big.Float recomputation of the threshold for every value Mode can return, '
+              'trimmed consensus must be one of the references and a substring of the full consensus; for the index: set of matched references from naive '
+              'canonical k-mers, strand invariance of Query by actually reverse-complementing the query)',
  'level_text': 'Proved for all inputs on the models of the repaired code: encode4_exact (Encode4mer = the codes of the 4-mers in order, none below 4 bases, no '
                'panic); count4_mod (table cell = occurrences modulo 2^16) and count4_exact_partial (exact below 65539 bases) with count4_overflow as '
                'counterexample to the unrestricted statement; canon_exact (for every word width W, every k with 1 <= k and 2k <= W, dense or sparse, every '
@@ -27,20 +33,43 @@ CFG = {'lean_modules': ['ObiVerif.Props.C19'],
                'heaviest_is_walk, heaviest_terminates (fuel bound hpBound), heaviest_optimal (positive weights: no walk from a source is heavier; '
                'optimal_zero_weight_counterexample shows why counts >= 1 are needed), none_iff_cycle (no path returned iff the graph is cyclic), '
                'single_read_roundtrip / _plain (a single read without repeated (k-1)-mer is returned unchanged; roundtrip_counterexample: "no repeated k-mer" '
-               'is not enough).',
+               'is not enough). Deepening round 2 (all proved, all inputs): heap_refines_multiset (the verbatim transcription of container/heap up/down/Push/Pop over '
+               'UInt64Heap keeps the heap order; Push adds exactly x; Pop removes exactly one element, a minimum) + heap_fuel_adequate; heaviest_transcription '
+               '(HaviestPath / LongestConsensus on that binary heap = the sorted-list models, every graph and fuel) and heaviestH_correct (nil iff cycle, walk '
+               'from a source, optimality, termination restated on the transcription, which is what the driver runs); consensus_of_multiset (pushing the same '
+               'reads in another order gives the same map, HasCycle, path and consensus: the association list is a map; Lemmas/DeBruijnOrder.lean: any two '
+               'lists holding the same map give the same results, i.e. Go map iteration order is unobservable in these queries); max_weight_spec, '
+               'filter_min_weight_spec (exactly the nodes of weight >= min keep their weight; WF, distinct keys and positivity are preserved, so the path theorems '
+               'apply after filtering); for min_cov > 0: trim_spec (complete characterisation of path[from:to], incl. the slice panic when every node is below the '
+               'threshold), consensus_cov_spec (result = decoding of the sub-walk between the first and last node reaching the threshold; panic otherwise), '
+               'cov_threshold_exact (the float threshold equals floor(mode*min_cov+1/2) when min_cov = a/2^s or an integer and mode*a+2^(s-1) < 2^53; then <= mode '
+               'if min_cov <= 1), consensus_cov_no_panic_partial (no panic for min_cov <= 1 under that no-rounding hypothesis), mode_cands_spec, '
+               'mode_tie_counterexample (the outcome depends on Go map iteration order inside obistats.Mode when two weights are equally frequent; min_cov = 2 '
+               'panics). k-mer index proper: index_exact (without occurrence limit the list under k-mer x is the references in order, each repeated count x times), '
+               'query_exact (query not in the index: reference j is reported iff it shares a canonical k-mer occurrence, with the value shared+1 - the code counts '
+               'one too many -, independent of the address order), query_strand_invariant.',
  'level_note': 'Trusted: Lean kernel; the transcriptions Model/Kmer.lean and Model/DeBruijn.lean; obifp words are modelled as naturals below 2^W with '
                'LeftShift = (x * 2^n) mod 2^W, RightShift = x / 2^n, And/Or = Nat.land/lor, Not = 2^W-1-x, Sub panicking on underflow - the agreement of '
                'pkg/obifp with that arithmetic is property C20 (and is exercised here on Uint64/128/256 by the correspondence); the Go map of the graph is an '
-               'association list; container/heap over UInt64Heap is modelled as extract-min of a multiset; LongestConsensus only with min_cov = 0 (the '
-               'trimming branch uses floats); weights as naturals (no uint/int overflow).',
+               'association list (proved order-independent: consensus_of_multiset); weights as naturals (no uint/int overflow). min_cov: the three float64 '
+               'operations are modelled exactly as round-to-53-bits-ties-to-even of the exact result with unbounded exponent (no overflow; the multiplication and '
+               'the addition rounded separately = amd64 GOAMD64=v1; an FMA-fusing target agrees whenever cov_threshold_exact applies); obistats.Mode is a parameter '
+               'of the model ranging over modeCands - on a tie the driver accepts the outcome observed on the real code iff it is one of the candidates. Not '
+               'proved: monotonicity of the roundings (hence no-panic for every float min_cov <= 1 is only _partial); Query when the query sequence is itself a '
+               'reference (it is reported or not according to its address: tied by correspondence with the address ranks produced by the real run) and with an '
+               'occurrence limit (correspondence only); KmerMatch.Max, MaxPath/BestConsensus/LongestPath/WeightMode/WeightMean/Gml are not modelled (unused by the '
+               'commands or dependent on map iteration order / floats).',
  'trusted_base': LEAN_TB + ['extract/ (go/ast literal extraction of iupac, revcompnuc, decode, __single_base_code__)',
- 'naive string/big-integer k-mer references, Kahn and walk enumeration oracles in harness/c19.go',
+ 'naive string/big-integer k-mer references, Kahn and walk enumeration oracles, big.Float threshold reference in harness/c19.go',
  'C20 for the meaning of the obifp operations'],
  'modelled': 'pkg/obikmer encodefourmer.go (Encode4mer), counting.go (Count4Mer), kmermap.go (NewKmerMap parameters and masks, NormalizedKmerSlice, '
              'KmerAsString), debruijn.go (MakeDeBruijnGraph, Push, Weight, Nexts, Previouses, Heads, HasCycle, HaviestPath, DecodeNode, DecodePath, '
-             'LongestConsensus with min_cov = 0) - as repaired by notes/patches/C19-*.diff',
+             'LongestConsensus with min_cov = 0 and > 0, Len, MaxWeight, FilterMinWeight, UInt64Heap + container/heap up/down/Push/Pop), kmermap.go (Push, the '
+             'indexing loop and final filter of NewKmerMap, Len, Query, FilterMinCount), obistats.Mode (as the set of its possible answers) - as repaired by '
+             'notes/patches/C19-*.diff',
  'assumptions': ['read counts >= 1 and total weights below 2^63',
                  'k >= 1; for the index 2k <= width of the word type; for the graph k <= 32 (property: 2..31)',
                  'bytes outside the IUPAC table are outside the contract of Push (modelled as the repaired code behaves: they end the enumeration of the read)',
-                 'LongestConsensus is only modelled for min_cov = 0',
+                 'min_cov finite, > 0, mode x min_cov below 2^63; float multiplication and addition not fused',
+                 'Query: distinct sequences have distinct addresses (rank injective)',
                  'HaviestPath on the empty graph panics in the code (log.Panicf "Cycle detected"); LongestConsensus guards it with "graph is empty"']}
